@@ -65,9 +65,12 @@ V("bc-ground-unconditional", "break", ["C04", "C17"], BC,
 V("bc-announce-wrong-dom", "break", ["C01", "C08"], BC,
   "                    shr_domain_idx,\n                    events,", "                    var_idx,\n                    events,",
   "write-back announces the position in the constraint instead of the shared domain index", "bound_consistency_algorithm")
-V("bc-flags-row-stale", "break", ["C07"], BC,
+V("bc-flags-row-level0-neutral", "neutral", ["C07", "C01", "C08"], BC,
   "                    not_entailed_propagators_stack[top],", "                    not_entailed_propagators_stack[0],",
-  "wake-up consults the enabled flags of level 0 instead of the current level", "bound_consistency_algorithm")
+  "wake-up consults the enabled flags of level 0: a superset of the current row (lower rows are frozen copies), only costs useless executions")
+V("bc-flags-row-above", "break", ["C07", "C01", "C08"], BC,
+  "                    not_entailed_propagators_stack[top],", "                    not_entailed_propagators_stack[top + 1],",
+  "wake-up consults the stale row above the current level", "bound_consistency_algorithm")
 V("bc-entail-any-nonfail", "break", ["C07", "C01"], BC,
   "        if status == PROP_ENTAILMENT:", "        if status != PROP_INCONSISTENCY:",
   "constraint disabled on any non-failing answer", "bound_consistency_algorithm")
@@ -127,9 +130,15 @@ V("pop-no-fallback", "break", ["C01", "C08"], PR,
         triggered_propagators[previous_prop_idx] = False
         return previous_prop_idx
 """, "", "queue reported empty while the just-run propagator is flagged", "pop_propagator")
-V("addprop-ignores-entailed", "break", ["C07"], PR,
+V("addprop-ignores-entailed-neutral", "neutral", ["C07", "C01", "C08"], PR,
   "if not_entailed_propagators[prop_idx] and triggers[dom_idx, prop_idx] & events != 0:", "if triggers[dom_idx, prop_idx] & events != 0:",
-  "disabled constraints are woken again", "add_propagators")
+  "disabled (entailed) constraints are woken again: useless executions, no behavioural change")
+V("addprop-clears", "break", ["C01", "C08"], PR,
+  "            triggered_propagators[prop_idx] = True", "            triggered_propagators[prop_idx] = not triggered_propagators[prop_idx]",
+  "wake-up toggles the flag: a constraint already queued is un-queued", "add_propagators")
+V("addprop-skips-first", "break", ["C01", "C08"], PR,
+  "    for prop_idx in range(len(triggered_propagators)):\n        if not_entailed", "    for prop_idx in range(1, len(triggered_propagators)):\n        if not_entailed",
+  "constraint 0 is never woken", "add_propagators")
 V("addprop-needs-all-bits", "break", ["C08", "C01"], PR,
   "triggers[dom_idx, prop_idx] & events != 0:", "triggers[dom_idx, prop_idx] & events == events:",
   "a constraint is woken only when it watches all announced bits", "add_propagators")
@@ -218,9 +227,12 @@ V("solveone-events-masked", "break", ["C09", "C01", "C08"], BS,
   "                dom_idx,\n                events,\n            )\n            statistics[STATS_IDX_SOLVER_CHOICE_NB] += 1",
   "                dom_idx,\n                events & 3,\n            )\n            statistics[STATS_IDX_SOLVER_CHOICE_NB] += 1",
   "GROUND bit of the decision dropped at hand-over", "solve_one")
-V("solveone-stale-row", "break", ["C07", "C09"], BS,
+V("solveone-row-above", "break", ["C07", "C09", "C01"], BS,
   "                not_entailed_propagators_stack[stacks_top[0]],\n                triggers,\n                dom_idx,",
-  "                not_entailed_propagators_stack[0],\n                triggers,\n                dom_idx,", "decision announced against level 0's flags", "solve_one")
+  "                not_entailed_propagators_stack[stacks_top[0] + 1],\n                triggers,\n                dom_idx,", "decision announced against the stale row above the new top", "solve_one")
+V("solveone-row-level0-neutral", "neutral", ["C07", "C09", "C01"], BS,
+  "                not_entailed_propagators_stack[stacks_top[0]],\n                triggers,\n                dom_idx,",
+  "                not_entailed_propagators_stack[0],\n                triggers,\n                dom_idx,", "decision announced against level 0's flags (a superset of the current row)")
 V("solveone-choice-counter-under-depth", "break", ["C17"], BS,
   """            statistics[STATS_IDX_SOLVER_CHOICE_NB] += 1
             if stacks_top[0] > statistics[STATS_IDX_SOLVER_CHOICE_DEPTH]:
@@ -300,14 +312,14 @@ V("opt-wrong-var-tightened", "break", ["C03"], BS,
   "tightens variable 0 instead of the objective", "optimize")
 V("minimize-uses-increase", "break", ["C03"], BS,
   "        return self.optimize(variable_idx, decrease_max)", "        return self.optimize(variable_idx, increase_min)", "minimize tightens the lower bound", "minimize")
-V("decmax-no-minus1", "break", ["C03", "C01"], SV,
+V("decmax-no-minus1", "break", ["C03"], SV,
   "MAX] = value - 1 - dom_offsets_arr[var_idx]", "MAX] = value - dom_offsets_arr[var_idx]", "tightening is not strict (same incumbent again: no termination)", "decrease_max")
-V("decmax-offset-sign", "break", ["C03", "C13", "C01"], SV,
+V("decmax-offset-sign", "break", ["C03", "C13"], SV,
   "MAX] = value - 1 - dom_offsets_arr[var_idx]", "MAX] = value - 1 + dom_offsets_arr[var_idx]", "offset added instead of subtracted", "decrease_max")
-V("incmin-stores-max", "break", ["C03", "C01"], SV,
+V("incmin-stores-max", "break", ["C03"], SV,
   "dom_indices_arr[var_idx], MIN] = value + 1 - dom_offsets_arr[var_idx]", "dom_indices_arr[var_idx], MAX] = value + 1 - dom_offsets_arr[var_idx]",
   "increase_min writes the upper bound", "increase_min")
-V("incmin-var-as-dom", "break", ["C03", "C13", "C01"], SV,
+V("incmin-var-as-dom", "break", ["C03", "C13"], SV,
   "shr_domains_stack[stacks_top[0], dom_indices_arr[var_idx], MIN] = value + 1", "shr_domains_stack[stacks_top[0], var_idx, MIN] = value + 1",
   "variable index used as shared-domain index", "increase_min")
 V("solution-no-offset", "break", ["C01", "C13"], SV,
